@@ -116,14 +116,20 @@ impl<F: Read + Seek> BufRead for Stream<F> {
             let stream_id = self.stream_id;
             let offset = self.buf_offset_from_start;
             let minialloc = self.minialloc()?;
-            self.buffer.refill_with(remaining, |buf| {
+            let result = self.buffer.refill_with(remaining, |buf| {
                 read_data_from_stream(
                     &mut minialloc.write().unwrap(),
                     stream_id,
                     offset,
                     buf,
                 )
-            })?;
+            });
+            if result.is_err() {
+                // The buffer's old contents belong to the previous window;
+                // don't let a later read serve them as data at `offset`.
+                self.buffer.clear();
+            }
+            result?;
         }
         Ok(self.buffer.remaining_slice())
     }
